@@ -24,6 +24,8 @@ CLAIMED = {
          "bounds: <= 2 entries / 2 references / 2 outputs; the coinbase exemption (ContextCheck is not run for coinbase) and address-string resolution in Sterilize (base58) are not encoded"),
  "C39": ("4 C39", "bloom.Filter with symbolic filter bytes, hash count, tweak and elements, MurmurHash3 executed for real: after Add(x); Add(y) both match and no bit is ever cleared; AddOutPoint/AddHash then match; MatchTxAndUpdate on a real TransferAsset transaction that pays to a watched program hash (any output position) or spends a watched outpoint (any input position) returns true and the paying outpoint matches afterwards; side-chain SPV filters (tweak MaxUint32) match watched hashes and watched transaction types.",
          "bounds: filter 1..4 bytes (1..2 for the transaction harness; 8/4 thorough), 1..3 hash functions, elements 0..5 bytes plus 21/32/34-byte hashes and outpoints, <= 2 outputs / 2 inputs; SHA-256 of a symbolic transaction is an uninterpreted function; multiplications/remainders are first abstracted as uninterpreted functions (sound for unsat) and every sat verdict is re-decided exactly; empty filters (division by zero) are a C03 question and excluded; false-positive rate and NewFilter sizing not encoded"),
+ "C11": ("4 C11", "Configuration.GetBlockReward / newRewardPerBlock for all uint32 heights on the mainnet, testnet and regnet parameter sets (IEEE-754 semantics, math.Pow(2,k) encoded exactly through the exponent field): never negative, and non-increasing in height from NewELAIssuanceHeight on. BlockChain.checkCoinbaseTransactionContext in the DPoS-v2 era with symbolic height, fee total, 2..4 coinbase outputs of arbitrary value and address: accepted => exactly three outputs summing to subsidy + fees, CR share ceil(0.3 total), DPoS share ceil(0.35 total), CR/DPoS outputs at the configured addresses (destroy address in PoW mode). The same through checkTxsContext / GetBlockDPOSReward for a coinbase-only block.",
+         "bounds: fees in [0, 2^53]; coinbase with >= 2 outputs (CoinBaseTransaction.CheckTransactionOutput rejects fewer); v2 heights >= CheckRewardHeight (true on all shipped networks; below it checkTxsContext deliberately ignores the verdict); symbolic halving interval/heights only in the thorough tier; eras before v2, pow.Service.AssignCoinbaseTxRewards and the agreement of tx.Fee() with GetTxFee are not encoded; decided by cvc5 (FP)"),
 }
 
 # thorough tier (deeper bounds + every unsat cross-checked with z3 5.1.0) is
@@ -37,7 +39,6 @@ NA = {
  "C07": "merkle root binding needs collision-freedom of SHA-256, which an uninterpreted function does not give (the solver may pick a colliding interpretation); structural checks not built",
  "C08": "same obstacle as C07 (hash injectivity) plus recursive tree traversal over symbolic sizes; not built",
  "C10": "commitment soundness needs hash injectivity (see C07); the crash-freedom half of AuxPow.Check is claimed under C03",
- "C11": "subsidy harness written (math.Pow(2,k) as exact table) but its IEEE-754 queries were not run to completion in this session, and the coinbase-split half needs the block/transaction context; not claimed",
  "C12": "chain selection over histories of forks against a database-backed BlockChain: cannot be constructed symbolically within reach; decision kernel not built",
  "C13": "per-transaction save/rollback processors work against ffldb transactions (I/O, pointer-rich heap): not encodable",
  "C14": "indexers read and write ffldb buckets: not encodable (see C13)",
